@@ -27,9 +27,9 @@ import (
 // points are judged against those directly.
 
 const (
-	c08Tol     = 1e-9  // stated absolute tolerance of BetaInc / GammaInc / GammaIncComp
-	c08TolRel  = 1e-10 // stated relative tolerance of Choose
-	c08MonoTol = 1e-12 // floor of the slack of the monotonicity laws (rounding noise), see c08BetaNoise
+	c08Tol     = 1e-9    // stated absolute tolerance of BetaInc / GammaInc / GammaIncComp
+	c08TolRel  = 1e-10   // stated relative tolerance of Choose
+	c08MonoTol = 1.2e-13 // constant part of the slack of the monotonicity laws (4 x the 3e-14 stop criterion), see c08Slack
 	c08Lo      = 0.05
 	c08Hi      = 300.0
 )
@@ -121,11 +121,16 @@ func c08TakeAdj() bool {
 // Gamma(a+b) overflows float64 long before a+b = 600, so every float64
 // implementation forms E in log space and inherits a relative noise of about
 // eps*M, M = sum of the magnitudes of the terms of E. Following DESIGN
-// section 4(b) the slack is 16*eps*M (eps = 2^-52), never below the design's
-// 1e-12 and never above 1e-10, i.e. always at least ten times tighter than
+// section 4(b) the slack is 16*eps*M (eps = 2^-52) plus a constant 1.2e-13
+// = 4 x 3e-14, the relative truncation left by the stop criterion of the
+// series / continued fractions named in the property's mechanism (each value
+// is <= 1), never above 1e-10, i.e. always at least ten times tighter than
 // the 1e-9 accuracy claim, so a step at the branch switch is still caught.
+// (The constant part was 1e-12 before; a continued fraction stopped at 3e-12
+// instead of 3e-14 passed the ulp-chains under it. On the pristine tree the
+// largest drop seen where M is small is 5e-15.)
 func c08Slack(M float64) float64 {
-	return c08Clamp(16*0x1p-52*M, c08MonoTol, 1e-10)
+	return math.Min(c08MonoTol+16*0x1p-52*M, 1e-10)
 }
 
 func c08AbsLgamma(v float64) float64 {
@@ -162,6 +167,9 @@ func c08BetaClasses(w *mon.W, x, a, b float64) {
 	w.HitIf((a < 0.1 && b > 250) || (b < 0.1 && a > 250), "beta-small-and-large-param")
 	w.HitIf(x == 0, "beta-x=0")
 	w.HitIf(x == 1, "beta-x=1")
+	w.HitIf((x == 0 || x == 1) && a == math.Floor(a) && b == math.Floor(b), "beta-end-point-int-params")
+	w.HitIf((x == 0 || x == 1) && (a == 1 || b == 1), "beta-end-point-param=1")
+	w.HitIf(a == 1 || b == 1, "beta-param=1")
 	w.HitIf(x > 0 && x < 1e-100, "beta-x-tiny")
 	w.HitIf(x < 1 && x > 1-1e-12, "beta-x-near-1")
 	w.HitIf(math.Abs(x-mean) <= sd, "beta-x-near-mean")
@@ -291,6 +299,10 @@ func c08JudgeBetaMono(w *mon.W, c c08Case) {
 			w.Violate("BetaInc-range", fmt.Sprintf("BetaInc(%.17g, %.17g, %.17g) = %.17g is not in [0,1]", x, a, b, got), one)
 			return
 		}
+		if (x == 0 && got != 0) || (x == 1 && got != 1) {
+			w.Violate("BetaInc-end-point", fmt.Sprintf("BetaInc(%v, %.17g, %.17g) = %.17g, must be %v", x, a, b, got, x), one)
+		}
+		w.HitIf((x == 0 || x == 1) && a == math.Floor(a) && b == math.Floor(b), "beta-end-point-int-params")
 		if !math.IsNaN(prevX) && x > prevX {
 			w.HitIf(prevX < sw && x >= sw, "beta-monotone-across-switch")
 			slack := c08Slack(math.Max(c08BetaNoise(prevX, a, b), c08BetaNoise(x, a, b)))
@@ -308,6 +320,10 @@ func c08JudgeBetaMono(w *mon.W, c c08Case) {
 func c08JudgeSpecialX(w *mon.W, c c08Case) {
 	a, b := float64(c.A), float64(c.B)
 	w.Hit("special-x")
+	w.HitIf(a == math.Floor(a), "special-x-int-a")
+	w.HitIf(a == 1, "special-x-a=1")
+	w.HitIf(2*a == math.Floor(2*a) && a != math.Floor(a), "special-x-half-int-a")
+	w.HitIf(c08IsSpecialParam(a) || c08IsSpecialParam(b), "special-x-special-params")
 	w.Distinct(mon.NewHasher().S("special-x").F(a).F(b).Sum())
 	if got, pv, ok := c08BetaInc(w, math.NaN(), a, b); !ok {
 		w.Violate("BetaInc-panic", fmt.Sprintf("BetaInc(NaN, %.17g, %.17g) panicked: %v", a, b, pv), c)
@@ -334,6 +350,9 @@ func c08JudgeBetaOutside(w *mon.W, c c08Case) {
 	w.Hit("beta-x-outside")
 	w.HitIf(math.IsInf(x, 0), "beta-x-infinite")
 	w.HitIf(x < 0 && x > -1e-300 || x > 1 && x < 1+1e-15, "beta-x-just-outside")
+	w.HitIf(c08IsSpecialParam(a) || c08IsSpecialParam(b), "beta-x-outside-special-params")
+	w.HitIf(a == 1 || b == 1, "beta-x-outside-param=1")
+	w.HitIf(a == 1 && b == 1, "beta-x-outside-a=b=1")
 	w.Distinct(mon.NewHasher().S("betainc-outside").F(x).F(a).F(b).Sum())
 	got, pv, ok := c08BetaInc(w, x, a, b)
 	if !ok {
@@ -358,6 +377,11 @@ func c08GammaClasses(w *mon.W, a, x float64) {
 	w.HitIf(a > 250 && x > sw, "gamma-cf-large-a")
 	w.HitIf(a > 250 && x < sw && x > 0.8*a, "gamma-series-large-a")
 	w.HitIf(x == 0, "gamma-x=0")
+	w.HitIf(x == 0 && a == math.Floor(a), "gamma-x=0-int-a")
+	w.HitIf(math.IsInf(x, 1), "gamma-x=+Inf")
+	w.HitIf(math.IsInf(x, 1) && a == math.Floor(a), "gamma-x=+Inf-int-a")
+	w.HitIf(a != 1 && math.Abs(a-1) <= 4*0x1p-52, "gamma-a-ulps-from-1")
+	w.HitIf(a == 1, "gamma-a=1")
 	w.HitIf(x > 0 && x < 1e-100, "gamma-x-tiny")
 	w.HitIf(x > c08GammaXMax(a), "gamma-x-huge")
 	w.HitIf(math.Abs(x-a) <= math.Sqrt(a), "gamma-x-near-mean")
@@ -365,7 +389,7 @@ func c08GammaClasses(w *mon.W, a, x float64) {
 
 func c08JudgeGammaInc(w *mon.W, c c08Case) {
 	a, x := float64(c.A), float64(c.X)
-	if !(a >= c08Lo && a <= c08Hi && x >= 0 && !math.IsInf(x, 1)) {
+	if !(a >= c08Lo && a <= c08Hi && x >= 0) {
 		return
 	}
 	c08GammaClasses(w, a, x)
@@ -375,7 +399,14 @@ func c08JudgeGammaInc(w *mon.W, c c08Case) {
 	if mode == "closed" && !isInt && !isHalf {
 		mode = "big"
 	}
+	if math.IsInf(x, 1) {
+		// the end point of x >= 0: P = 1, Q = 0 whatever the class of a
+		// (no reference is evaluated there)
+		mode = "limit"
+	}
 	switch mode {
+	case "limit":
+		w.Note("gamma-limit-at-+Inf")
 	case "closed":
 		w.HitIf(isInt, "closed-form-int-gamma")
 		w.HitIf(isHalf, "closed-form-half-gamma")
@@ -414,6 +445,8 @@ func c08JudgeGammaInc(w *mon.W, c c08Case) {
 		}
 	}
 	switch mode {
+	case "limit":
+		judge("limit", "the limit x -> +Inf", 1, 0, "")
 	case "closed":
 		var q *big.Float
 		what := "the Poisson tail sum"
@@ -462,7 +495,7 @@ func c08JudgeGammaMono(w *mon.W, c c08Case) {
 	w.Distinct(mon.NewHasher().S("gammainc-mono").F(a).Fs(xs).Sum())
 	prevP, prevQ, prevX := math.Inf(-1), math.Inf(1), math.NaN()
 	for _, x := range xs {
-		if !(x >= 0) || math.IsInf(x, 1) {
+		if !(x >= 0) {
 			continue
 		}
 		one := c08Case{Op: "gammainc", Mode: "big", X: mon.F(x), A: c.A}
@@ -483,6 +516,23 @@ func c08JudgeGammaMono(w *mon.W, c c08Case) {
 		w.HitIf(a > 250 && x > sw, "gamma-cf-large-a")
 		if !w.Err("GammaInc+GammaIncComp", math.Abs(P+Q-1), c08Tol) {
 			w.Violate("Gamma-sum", fmt.Sprintf("GammaInc(%.17g,%.17g) + GammaIncComp = %.17g + %.17g = 1%+.3g", a, x, P, Q, P+Q-1), one)
+		}
+		// end points of the grid: P(a,0) = 0, Q(a,0) = 1; P(a,+Inf) = 1, Q(a,+Inf) = 0
+		if x == 0 || math.IsInf(x, 1) {
+			wantP, wantQ := 0.0, 1.0
+			if x != 0 {
+				wantP, wantQ = 1, 0
+			}
+			w.HitIf(x == 0, "gamma-x=0")
+			w.HitIf(x == 0 && a == math.Floor(a), "gamma-x=0-int-a")
+			w.HitIf(x != 0, "gamma-x=+Inf")
+			w.HitIf(x != 0 && a == math.Floor(a), "gamma-x=+Inf-int-a")
+			if !w.Err("GammaInc-at-end-point", math.Abs(P-wantP), c08Tol) {
+				w.Violate("GammaInc-end-point", fmt.Sprintf("GammaInc(%.17g, %v) = %.17g, must be %v", a, x, P, wantP), one)
+			}
+			if !w.Err("GammaIncComp-at-end-point", math.Abs(Q-wantQ), c08Tol) {
+				w.Violate("GammaIncComp-end-point", fmt.Sprintf("GammaIncComp(%.17g, %v) = %.17g, must be %v", a, x, Q, wantQ), one)
+			}
 		}
 		if !math.IsNaN(prevX) && x > prevX {
 			w.HitIf(prevX < sw && x >= sw, "gamma-monotone-across-switch")
@@ -510,6 +560,13 @@ func c08JudgeGammaNaN(w *mon.W, c c08Case) {
 	w.HitIf(x < 0, "gamma-x<0")
 	w.HitIf(math.IsNaN(a), "gamma-a-NaN")
 	w.HitIf(math.IsNaN(x), "gamma-x-NaN")
+	aLegal := a > 0 // false for NaN
+	xLegal := x >= 0
+	w.HitIf(aLegal && c08IsSpecialParam(a), "gamma-nan-special-legal-a")
+	w.HitIf(a == 1 && x < 0, "gamma-a=1-x<0")
+	w.HitIf(a == 1 && math.IsNaN(x), "gamma-a=1-x-NaN")
+	w.HitIf(aLegal && a == math.Floor(a) && a > 1 && x < 0, "gamma-int-a-x<0")
+	w.HitIf(xLegal && (x == 0 || math.IsInf(x, 1)), "gamma-nan-legal-x-end-point")
 	w.Distinct(mon.NewHasher().S("gammainc-nan").F(a).F(x).Sum())
 	P, pv, ok := c08GammaInc(w, a, x)
 	if !ok {
@@ -560,10 +617,47 @@ func c08JudgeBeta(w *mon.W, c c08Case) {
 
 // Choose / Lchoose -----------------------------------------------------------------
 
-// c08JudgeChoose judges Choose(n,k) and Lchoose(n,k) for n >= 0 and any k.
+// c08JudgeChooseNeg: for n < 0 every k satisfies "k < 0 or k > n", so the
+// statement asks for Choose = 0 and Lchoose = NaN (out of range) and nothing
+// may panic. Not judged on the value: k == 0 and k == n, where the documented
+// early exit "k == 0 || k == n -> 1" of the library and the statement's "0 for
+// k > n" / "0 for k < 0" disagree (only a panic is reported there).
+func c08JudgeChooseNeg(w *mon.W, n, k int) {
+	c := c08Case{Op: "choose", N: n, K: k}
+	var got, lgot float64
+	w.Hit("choose-negative-n")
+	w.HitIf(k > n && k != 0, "choose-negative-n-k>n")
+	w.HitIf(k < n, "choose-negative-n-k<n")
+	w.Eval("Choose")
+	pc, pv := mon.Call(func() { got = mathx.Choose(n, k) })
+	if pc {
+		w.Violate("Choose-panic", fmt.Sprintf("Choose(%d,%d) panicked: %v", n, k, pv), c)
+	}
+	w.Eval("Lchoose")
+	pl, pv := mon.Call(func() { lgot = mathx.Lchoose(n, k) })
+	if pl {
+		w.Violate("Lchoose-panic", fmt.Sprintf("Lchoose(%d,%d) panicked: %v", n, k, pv), c)
+	}
+	if k == 0 || k == n {
+		w.Note("choose-negative-n-value-not-judged")
+		return
+	}
+	if !pc && got != 0 {
+		w.Violate("Choose-out-of-range", fmt.Sprintf("Choose(%d,%d) = %v, must be 0 (n < 0: k is below 0 or above n)", n, k, got), c)
+	}
+	if !pl && !math.IsNaN(lgot) {
+		w.Violate("Lchoose-out-of-range", fmt.Sprintf("Lchoose(%d,%d) = %v, must be NaN (n < 0: k is below 0 or above n)", n, k, lgot), c)
+	}
+}
+
+// c08JudgeChoose judges Choose(n,k) and Lchoose(n,k) for any n <= 1000 and any k.
 // bin may carry the exact binomial (computed incrementally by the caller).
 func c08JudgeChoose(w *mon.W, n, k int, bin *big.Int) {
-	if n < 0 || n > 1000 {
+	if n > 1000 {
+		return
+	}
+	if n < 0 {
+		c08JudgeChooseNeg(w, n, k)
 		return
 	}
 	c := c08Case{Op: "choose", N: n, K: k}
@@ -685,7 +779,9 @@ func c08Step(x float64, k int) float64 {
 
 func c08GenParam(rng *mon.Rand) float64 {
 	var v float64
-	switch rng.Intn(10) {
+	switch rng.Intn(11) {
+	case 10:
+		v = c08GenSpecial(rng)
 	case 5:
 		if rng.Intn(3) == 0 {
 			v = c08Lo
@@ -708,6 +804,46 @@ func c08GenParam(rng *mon.Rand) float64 {
 		v = rng.LogUniform(c08Lo, c08Hi)
 	}
 	return c08Clamp(v, c08Lo, c08Hi)
+}
+
+// c08SpecialParams: in-range parameter values at which an implementation is
+// likely to have a shortcut or a closed form (exponential a = 1, Erlang
+// integers, chi-square half-integers, the ends of the range, one ulp either
+// side of 1 and 2).
+var c08SpecialParams = []float64{1, 2, 3, 0.5, 1.5, 2.5, c08Lo, c08Hi, 4, 5, 10, 20, 21, 100, 170, 171, 172, 299, 299.5, 0.25, 0.75, 3.5,
+	1 + 0x1p-52, 1 - 0x1p-53, 2 + 0x1p-51, 2 - 0x1p-52, 0.5 + 0x1p-53, 0.5 - 0x1p-54}
+
+func c08GenSpecial(rng *mon.Rand) float64 {
+	if rng.Intn(4) == 0 {
+		return 1
+	}
+	return c08SpecialParams[rng.Intn(len(c08SpecialParams))]
+}
+
+// c08IsSpecialParam: integer, half-integer, an end of the range or within
+// two ulps of 1, 2 or 0.5 (a property of the input only).
+func c08IsSpecialParam(v float64) bool {
+	if !(v >= c08Lo && v <= c08Hi) {
+		return false
+	}
+	if 4*v == math.Floor(4*v) || v == c08Lo || v == c08Hi {
+		return true
+	}
+	for _, c := range []float64{0.5, 1, 2} {
+		if math.Abs(v-c) <= 4*0x1p-52*c {
+			return true
+		}
+	}
+	return false
+}
+
+// c08GenLegal draws the argument that stays legal in the NaN / outside-domain
+// workloads: half the time a special value, else as everywhere.
+func c08GenLegal(rng *mon.Rand) float64 {
+	if rng.Bool() {
+		return c08GenSpecial(rng)
+	}
+	return c08GenParam(rng)
 }
 
 func c08GenInt(rng *mon.Rand) int {
@@ -790,7 +926,10 @@ func c08GenGammaX(rng *mon.Rand, a float64) float64 {
 	case 5, 6, 7:
 		x = c08Near(rng, sw, sw)
 	case 8:
-		x = rng.Pick(0, math.Copysign(0, -1), xmax, a, sw, 5e-324, 1)
+		x = rng.Pick(0, math.Copysign(0, -1), xmax, a, sw, 5e-324, 1, math.Inf(1))
+		if math.IsInf(x, 1) {
+			return x // the end point x = +Inf (P = 1, Q = 0)
+		}
 	case 9:
 		x = math.Pow(10, rng.Uniform(0, 308.2))
 	case 10:
@@ -849,7 +988,7 @@ func c08BetaGrid(rng *mon.Rand, a, b float64) []float64 {
 func c08GammaGrid(rng *mon.Rand, a float64) []float64 {
 	sw := a + 1
 	xmax := c08GammaXMax(a)
-	xs := []float64{0, 5e-324, 1e-300, 1e-100, 1e-10, xmax, 1e5, 1e308, math.MaxFloat64}
+	xs := []float64{0, 5e-324, 1e-300, 1e-100, 1e-10, xmax, 1e5, 1e308, math.MaxFloat64, math.Inf(1)}
 	for k := -4; k <= 4; k++ {
 		xs = append(xs, c08Step(sw, k))
 	}
@@ -867,7 +1006,7 @@ func c08GammaGrid(rng *mon.Rand, a float64) []float64 {
 	}
 	out := xs[:0]
 	for _, x := range xs {
-		if x >= 0 && !math.IsInf(x, 1) {
+		if x >= 0 {
 			out = append(out, x)
 		}
 	}
@@ -901,11 +1040,12 @@ func c08MathextSelfTest() error {
 // run --------------------------------------------------------------------------------
 
 func c08Run(r *mon.Run) {
-	r.Rule("BetaInc on (x,a,b) and GammaInc/GammaIncComp on (a,x) with a,b in [0.05,300] log-uniform plus edges (0.05, <0.1, >250, 300), integers, half-integers; x uniform and concentrated at 0, 1, the mean, the branch switch (a+1)/(a+b+2) resp. a+1 (0, a few ulps, 1e-15..1e-3 either side), tails, tiny/subnormal, for gamma up to a+40*sqrt(a)+40 and out to MaxFloat64. Bulk points judged against mathext with a 384-bit series adjudicator; separate classes judged directly against closed forms (integer a,b; integer and half-integer a) and against the 384-bit series. Laws: range, end points, I_x(a,b)+I_{1-x}(b,a)=1 (x snapped so that 1-x is exact), P+Q=1, monotone on sorted grids including ulp-chains across the switch, NaN rules. Choose/Lchoose: every 0<=k<=n<=1000 plus out-of-range k against big.Int. Beta against a 384-bit Gamma ratio. Sign on specials and random bit patterns. Non-trivial = hits a class; distinct by hash of (op, arguments).")
+	r.Rule("BetaInc on (x,a,b) and GammaInc/GammaIncComp on (a,x) with a,b in [0.05,300] log-uniform plus edges (0.05, <0.1, >250, 300), integers, half-integers; x uniform and concentrated at 0, 1, the mean, the branch switch (a+1)/(a+b+2) resp. a+1 (0, a few ulps, 1e-15..1e-3 either side), tails, tiny/subnormal, for gamma up to a+40*sqrt(a)+40 and out to MaxFloat64. Bulk points judged against mathext with a 384-bit series adjudicator; separate classes judged directly against closed forms (integer a,b; integer and half-integer a) and against the 384-bit series. Laws: range, end points, I_x(a,b)+I_{1-x}(b,a)=1 (x snapped so that 1-x is exact), P+Q=1, monotone on sorted grids including ulp-chains across the switch, NaN rules. Choose/Lchoose: every 0<=k<=n<=1000 plus out-of-range k against big.Int; negative n (every k out of range: 0 / NaN, no panic; k=0 and k=n not judged on value). Parameters also drawn from a list of special values (1, 2, 3, 0.5, 1.5, small integers and half-integers, 0.05, 300, 1 and 2 and 0.5 +- an ulp), in particular for the argument that stays legal in the NaN / outside-domain workloads; x = 0 and x = +Inf (gamma), x = 0 and x = 1 (beta) are end points of every class and grid. Beta against a 384-bit Gamma ratio. Sign on specials and random bit patterns. Non-trivial = hits a class; distinct by hash of (op, arguments).")
 	r.Assume("x = NaN is not counted as 'x outside [0,1]' for BetaInc (the statement lists NaN arguments only for the gamma functions)",
-		"x = +Inf is not an argument of GammaInc/GammaIncComp (x >= 0 is read as finite)",
+		"x = +Inf is the end point of x >= 0 for GammaInc/GammaIncComp: P = 1, Q = 0 (to 1e-9 in the accuracy and monotone classes, exactly in special-x, as since the D20 repair)",
+		"for n < 0 every k is 'k<0 or k>n': Choose must be 0 and Lchoose NaN, except k == 0 and k == n, where the library documents 1 / 0 and the value is not judged",
 		"the symmetry law is checked on x for which 1-x is exactly representable; elsewhere fl(1-x) is a different argument",
-		"monotonicity is checked with a slack for rounding noise of 16*2^-52*M clamped to [1e-12,1e-10], M = sum of magnitudes of the log-space terms of the prefactor (<= 2.1e-11 at a=b=300)",
+		"monotonicity is checked with a slack for rounding noise of min(1.2e-13 + 16*2^-52*M, 1e-10), M = sum of magnitudes of the log-space terms of the prefactor (<= 2.1e-11 at a=b=300); 1.2e-13 = 4 x the 3e-14 stop criterion of the series / continued fractions",
 		"Lchoose tolerance 1e-10*max(1,|ln C|)")
 	r.Gate("beta-near-gamma-overflow", "beta-switch-below", "beta-switch-above", "beta-small-param", "beta-large-param",
 		"beta-x=0", "beta-x=1", "beta-x-outside", "beta-x-just-outside", "beta-monotone-across-switch",
@@ -913,7 +1053,13 @@ func c08Run(r *mon.Run) {
 		"gamma-monotone-across-switch", "gamma-a<=0", "gamma-a=0", "gamma-x<0", "gamma-a-NaN", "gamma-x-NaN", "gamma-x-huge",
 		"closed-form-int-beta", "closed-form-int-gamma", "closed-form-half-gamma", "bigfloat-beta", "bigfloat-gamma",
 		"choose-n<=20", "choose-n>20", "choose-out-of-range", "beta-fn-half-integers", "beta-fn-gamma-overflows-float64",
-		"sign-nan", "sign-zero", "sign-inf", "sign-subnormal")
+		"sign-nan", "sign-zero", "sign-inf", "sign-subnormal",
+		// legal arguments at special values in the NaN / outside-domain workloads; end points with integer parameters
+		"gamma-nan-special-legal-a", "gamma-a=1-x<0", "gamma-a=1-x-NaN", "gamma-int-a-x<0", "gamma-nan-legal-x-end-point",
+		"beta-x-outside-special-params", "beta-x-outside-param=1", "beta-x-outside-a=b=1",
+		"gamma-x=0", "gamma-x=0-int-a", "gamma-x=+Inf", "gamma-x=+Inf-int-a", "gamma-a=1", "gamma-a-ulps-from-1",
+		"beta-end-point-int-params", "beta-end-point-param=1", "beta-param=1",
+		"choose-negative-n", "choose-negative-n-k>n", "choose-negative-n-k<n")
 	if err := ref.C08SelfTest(); err != nil {
 		r.Inconclusive("reference self-test failed: " + err.Error())
 		return
@@ -949,7 +1095,10 @@ func c08Run(r *mon.Run) {
 	outside := []float64{-5e-324, -1e-300, -1e-17, -0.5, -1, -2, -1e300, math.Inf(-1),
 		math.Nextafter(1, 2), 1 + 1e-15, 1.5, 2, 1e300, math.Inf(1)}
 	r.Parallel("betainc-outside", r.Pick(4_000, 40_000), func(w *mon.W, i int) {
-		a, b := c08GenAB(w.Rng)
+		a, b := c08GenLegal(w.Rng), c08GenLegal(w.Rng)
+		if w.Rng.Intn(12) == 0 {
+			b = a
+		}
 		var x float64
 		switch {
 		case i%3 == 0:
@@ -991,8 +1140,11 @@ func c08Run(r *mon.Run) {
 	badX := []float64{-5e-324, -1e-300, -1e-17, -0.5, -1, -300, -1e300, math.Inf(-1)}
 	r.Parallel("gammainc-nan", r.Pick(4_000, 40_000), func(w *mon.W, i int) {
 		rng := w.Rng
-		a := c08GenParam(rng)
+		a := c08GenLegal(rng)
 		x := c08GenGammaX(rng, a)
+		if rng.Intn(3) == 0 {
+			x = rng.Pick(0, math.Copysign(0, -1), math.Inf(1), 1, a, a+1, 5e-324, math.MaxFloat64)
+		}
 		switch i % 8 {
 		case 0:
 			a = badA[(i/8)%len(badA)]
@@ -1040,7 +1192,7 @@ func c08Run(r *mon.Run) {
 	})
 
 	// --- Choose / Lchoose: exhaustive
-	r.Exhaustive("Choose, Lchoose: every 0<=k<=n<=1000, and k in {-1,-2,-n-1,n+1,n+2,2n+1,MinInt64,2^24,-1000,2000} for every n")
+	r.Exhaustive("Choose, Lchoose: every 0<=k<=n<=1000, and k in {-1,-2,-n-1,n+1,n+2,2n+1,MinInt64,2^24,-1000,2000} for every n (negative n: a list of 28 n with about 110 k each, not exhaustive)")
 	r.Parallel("choose-exhaustive", 1001, func(w *mon.W, n int) {
 		bin := big.NewInt(1)
 		for k := 0; k <= n; k++ {
@@ -1053,6 +1205,39 @@ func c08Run(r *mon.Run) {
 			c08JudgeChoose(w, n, k, nil)
 		}
 		w.Distinct(mon.NewHasher().S("choose-row").I(n).Sum())
+	})
+
+	// --- Choose / Lchoose with negative n: every k is out of range
+	negN := []int{-1, -2, -3, -4, -5, -6, -7, -10, -19, -20, -21, -22, -33, -34, -63, -64, -65, -170, -171, -999, -1000, -1001,
+		-1 << 31, -1<<31 - 1, -1 << 32, -1 << 53, math.MinInt64 + 1, math.MinInt64}
+	r.Parallel("choose-negative-n", len(negN), func(w *mon.W, i int) {
+		n := negN[i]
+		// A call that never returns cannot be decided by a monitor (watchdog
+		// -> inconclusive), so pairs on which the product form of the binomial
+		// (a loop over n-k+1..n in wrapping int arithmetic) would run for more
+		// than 2^25 steps are left out: e.g. (-1, MinInt64), (-1, MaxInt64).
+		ks := []int{-1, -2, -3, -5, -20, -21, -1000, 0, 1, 2, 3, 4, 5, 10, 20, 21, 22, 170, 171, 1000, 1001, 1 << 20, 1 << 24,
+			math.MaxInt64, math.MinInt64, math.MinInt64 + 1, n, n + 1, n + 2, n + 3, n / 2}
+		if n > math.MinInt64+8 {
+			ks = append(ks, n-1, n-2, n-3, n-5)
+		}
+		if n >= -2000 {
+			ks = append(ks, -n, -n-1, -n+1, -2*n)
+		}
+		if n > math.MinInt64/2 {
+			ks = append(ks, 2*n, 2*n-1, 2*n+1)
+		}
+		for j := 0; j < 24; j++ {
+			ks = append(ks, w.Rng.Range(-30, 30), w.Rng.Range(-1<<20, 1<<20), -int(w.Rng.Uint64()>>1)-1)
+		}
+		for _, k := range ks {
+			if lo := n - (k - 1); lo <= n && uint64(n)-uint64(lo) > 1<<25 {
+				w.Note("choose-negative-n-pair-left-out")
+				continue
+			}
+			c08JudgeChoose(w, n, k, nil)
+		}
+		w.Distinct(mon.NewHasher().S("choose-neg-row").I(n).Sum())
 	})
 
 	// --- Sign
@@ -1078,8 +1263,18 @@ func c08Run(r *mon.Run) {
 		r.Inconclusive(fmt.Sprintf("adjudication budget exhausted: %d points on which the library and mathext disagree were not judged", n))
 	}
 	// Inputs the statement does not cover as read here (see assumptions):
-	r.Gate("special-x")
+	r.Gate("special-x", "special-x-int-a", "special-x-a=1", "special-x-half-int-a", "special-x-special-params")
 	r.Parallel("special-x", r.Pick(2000, 20000), func(w *mon.W, i int) {
-		c08JudgeSpecialX(w, c08Case{Op: "special-x", A: mon.F(w.Rng.LogUniform(c08Lo, c08Hi)), B: mon.F(w.Rng.LogUniform(c08Lo, c08Hi))})
+		rng := w.Rng
+		a, b := c08GenLegal(rng), c08GenLegal(rng)
+		switch i % 4 {
+		case 0:
+			a = float64(c08GenInt(rng))
+		case 1:
+			a, b = float64(c08GenInt(rng)), float64(c08GenInt(rng))
+		case 2:
+			a = float64(c08GenInt(rng)) - 0.5
+		}
+		c08JudgeSpecialX(w, c08Case{Op: "special-x", A: mon.F(a), B: mon.F(b)})
 	})
 }
